@@ -25,7 +25,7 @@ from mc.runner import Out
 
 ID = "C17"
 RULE = (
-    "BFS to depth d (2 quick, 3 thorough) from every initial axis (first x step x length x step-attribute/estimated x array layout); "
+    "BFS to depth d (2 quick; thorough: 3 from 1-D axes of length <= 3, 2 otherwise) from every initial axis (first x step x length x step-attribute/estimated x array layout); "
     "transitions: crop_dim with both bounds on existing coordinates or midway between neighbours (all pairs, all four closedness settings), "
     "extend_dim with bounds 0..2 steps beyond each end on lattice points or half a step further (closedness per the soundness rule), "
     "adjust_dim_width / crop_dim_width / extend_dim_width for every width 0..len+3 x {start, center, end}. One evaluation per transition; "
@@ -63,12 +63,20 @@ def inits(tier):
 
 def bounds(tier):
     return {"firsts": sorted(FIRSTS) if tier != "quick" else ["0", "10/3"], "steps": sorted(STEPS) if tier != "quick" else ["1", "0.01", "1/3"],
-            "lengths": [1, 2, 3, 4, 5] if tier != "quick" else [1, 3, 4], "depth": 2 if tier == "quick" else 3,
+            "lengths": [1, 2, 3, 4, 5] if tier != "quick" else [1, 3, 4],
+            "depth": 2 if tier == "quick" else "3 from 1-D axes of length <= 3, 2 from longer axes and 2-D layouts",
             "extend_reach_steps": 2, "widths": "0..len+3", "positions": ["start", "center", "end"], "initial_states": len(inits(tier))}
 
 
+def depth_for(tier, init):
+    if tier == "quick":
+        return 2
+    # depth 3 from the short axes (1-D), depth 2 from the long ones and from the 2-D layouts (cost grows ~350x per level)
+    return 3 if (init["n"] <= 3 and init["layout"] == "1d") else 2
+
+
 def blocks(tier):
-    return [{"init": i, "depth": 2 if tier == "quick" else 3} for i in inits(tier)]
+    return [{"init": i, "depth": depth_for(tier, i)} for i in inits(tier)]
 
 
 # ---------------------------------------------------------------- state
